@@ -1083,3 +1083,60 @@ Example C04_uts46_walk_premises_hold :
   /\ Uts46.to_unicode Idna_WalkEnc.toy_s true [226; 128; 143; 46; 120; 110; 45; 45; 98; 99; 104; 101; 114; 45; 107; 118; 97] Uts46.DENY_EMPTY Uts46.HAllow
      = Uts46.UI false [65533; 46; 98; 252; 99; 104; 101; 114] true.
 Proof. split; [exact Idna_WalkEnc.toy_s_np|]. split; [exact Idna_WalkEnc.toy_s_usv|]. vm_compute. split; reflexivity. Qed.
+
+(* ===== reached records, the inventory table, cost of the remaining states (task c04fin) ===== *)
+From RU Require Proofs.C04_Chain Proofs.C03_ReachParts Proofs.C03_ReachHist Proofs.C05_CompSteps3.
+
+(* Url::parse (no base): never a panic - every input, any host functions, both configurations (the class of F-C04-7
+   needs a file base) *)
+Theorem C04_parse_no_base_no_panic : forall dbg hp hpo hd ovr input, parse_url dbg hp hpo hd ovr None input <> PPanic.
+Proof. exact C04_Chain.parse_no_base_no_panic. Qed.
+Check C04_parse_no_base_no_panic : forall dbg hp hpo hd ovr input, parse_url dbg hp hpo hd ovr None input <> PPanic.
+Print Assumptions C04_parse_no_base_no_panic.
+
+(* C04_parse_panic_iff WITHOUT its base_ok premise when the base is itself a result of Url::parse / Url::join
+   (PJ dbg' hp hpo hd: parse without base, or parse against any record of PJ; the chain may come from either build
+   configuration): base_ok reproduces itself (C05_parse_base_ok).  Only hypothesis: HostWf on the host functions
+   (Display text of a host non-empty, not starting with ':' / '@', not ending in '/'; C09 discharges it for the
+   host model).  Second part: no panic in a release build, and none when the base is not a file URL. *)
+Theorem C04_join_panic_iff_reached : forall hp hpo hd, C03_ReachParts.HostWf hp hpo hd ->
+  forall dbg dbg' ovr b input, C05_CompSteps3.PJ dbg' hp hpo hd b ->
+  (parse_url dbg hp hpo hd ovr (Some b) input = PPanic <-> dbg = true /\ C04_ParseFile7.known_c04_7x (Some b) input = true)
+  /\ (dbg = false \/ list_eqb (b_scheme b) s_file = false -> parse_url dbg hp hpo hd ovr (Some b) input <> PPanic).
+Proof.
+  intros hp hpo hd HW dbg dbg' ovr b input R.
+  exact (conj (C04_Chain.join_panic_iff_pj hp hpo hd HW dbg dbg' ovr b input R)
+              (C04_Chain.join_no_panic_pj hp hpo hd HW dbg dbg' ovr b input R)).
+Qed.
+Check C04_join_panic_iff_reached : forall hp hpo hd, C03_ReachParts.HostWf hp hpo hd ->
+  forall dbg dbg' ovr b input, C05_CompSteps3.PJ dbg' hp hpo hd b ->
+  (parse_url dbg hp hpo hd ovr (Some b) input = PPanic <-> dbg = true /\ C04_ParseFile7.known_c04_7x (Some b) input = true)
+  /\ (dbg = false \/ list_eqb (b_scheme b) s_file = false -> parse_url dbg hp hpo hd ovr (Some b) input <> PPanic).
+Print Assumptions C04_join_panic_iff_reached.
+
+(* the premises wf_b / wfh / base_ok of C04_no_panic_accessors, C04_no_panic_setters, C04_no_panic_setters2 and
+   C04_parse_panic_iff hold of every record of a parse / join chain (PJ) and wf_b / wfh of every record of a history of
+   reach03 (parse, join, set_fragment, set_query, set_port, set_password, set_username, set_scheme, set_host(None),
+   set_ip_host, set_path, path_segments_mut sessions: Proofs/C03_ReachHist.v); third part: the mutators with an exact
+   panic class, on a reached receiver *)
+Theorem C04_reached_premises : forall hp hpo hd, C03_ReachParts.HostWf hp hpo hd ->
+  (forall dbg u, C05_CompSteps3.PJ dbg hp hpo hd u -> wf_b u = true /\ C06_Main.wfh u /\ C04_ParseTotal.base_ok u = true)
+  /\ (forall dbg u, C03_ReachHist.reach03 dbg hp hpo hd u -> wf_b u = true /\ C06_Main.wfh u)
+  /\ (forall dbg dbg' u, C03_ReachHist.reach03 dbg' hp hpo hd u ->
+        (forall p, exists u', Setters.set_path dbg u p = Some u')
+        /\ (forall ops, Setters.path_segments_session dbg u ops = None <-> dbg = true /\ C04_SetPath.psm_assert_fails u = true)
+        /\ (forall h, Setters.set_host dbg hp hpo hd u h = None <-> dbg = true /\ h = None /\ C04_SetHost.known_c04_1 u = true)
+        /\ (forall h, exists r, Setters.set_ip_host dbg hd u h = Some r)).
+Proof.
+  intros hp hpo hd HW.
+  exact (conj (C04_Chain.pj_wf hp hpo hd HW) (conj (C04_Chain.reached_wf hp hpo hd HW) (C04_Chain.reached_setters hp hpo hd HW))).
+Qed.
+Check C04_reached_premises : forall hp hpo hd, C03_ReachParts.HostWf hp hpo hd ->
+  (forall dbg u, C05_CompSteps3.PJ dbg hp hpo hd u -> wf_b u = true /\ C06_Main.wfh u /\ C04_ParseTotal.base_ok u = true)
+  /\ (forall dbg u, C03_ReachHist.reach03 dbg hp hpo hd u -> wf_b u = true /\ C06_Main.wfh u)
+  /\ (forall dbg dbg' u, C03_ReachHist.reach03 dbg' hp hpo hd u ->
+        (forall p, exists u', Setters.set_path dbg u p = Some u')
+        /\ (forall ops, Setters.path_segments_session dbg u ops = None <-> dbg = true /\ C04_SetPath.psm_assert_fails u = true)
+        /\ (forall h, Setters.set_host dbg hp hpo hd u h = None <-> dbg = true /\ h = None /\ C04_SetHost.known_c04_1 u = true)
+        /\ (forall h, exists r, Setters.set_ip_host dbg hd u h = Some r)).
+Print Assumptions C04_reached_premises.
